@@ -5,8 +5,8 @@ ROOT = os.path.dirname(os.path.dirname(os.path.abspath(__file__)))
 RACE = "Go race detector on the concurrent cases; "
 # id -> (level, technique, text, note, design_ref)
 CHECKS = {
- "C20": ("exploration", "reference-model monitor (independent spec codec) over enumerated/stratified values",
-         "Every generated value is pushed through the real Encode/Len/Decode and compared with an independent codec written from the CRAM spec tables; thorough enumerates all 2^32 int32 values, int64 is stratified over all nine length classes; decode totality over all first bytes x lengths 0..9; the cram stream readers are fed spec-built containers through whole and short-reading sources (1 byte, 1-11 bytes, random, last bytes with io.EOF, 16-byte bufio) and every decoded header field is compared with the encoded value.",
+ "C20": ("exploration", "reference-model monitor (independent spec codec) over enumerated/stratified values; truncation sweep of spec-built cram streams; race detector on concurrent first use",
+         "Every generated value is pushed through the real Encode/Len/Decode and compared with an independent codec written from the CRAM spec tables; thorough enumerates all 2^32 int32 values, int64 is stratified over all nine length classes; decode totality over all first bytes x lengths 0..9; the cram stream readers are fed spec-built containers through whole and short-reading sources (1 byte, 1-11 bytes, random, last bytes with io.EOF, 16-byte bufio) and every decoded header field is compared with the encoded value; every proper prefix of a stream must deliver the complete containers and then report a failure; each child process starts with eight goroutines using the codecs at once (repeated under -race).",
          "Trusts oracle/tf8.go as a transcription of CRAM spec 2.3; LTF-8 domain (2^64) only sampled.", "3 C20"),
  "C17": ("exploration", "interval-arithmetic reference monitor over enumerated and random chunk lists",
          "Every provided merge strategy is applied to every begin-sorted chunk list of a small alphabet (complete enumeration up to length 3 quick / 5 thorough) and to random large lists; an independent interval-union oracle checks sortedness, coverage, the per-strategy clauses and idempotence.",
